@@ -12,9 +12,12 @@ oracle) and prints the same observation lines as the harness (src/seq.rs).
 namespace Qv.Driver
 open Qv.Text Qv.Codec Qv.Model Qv.Spec
 
+/-- content left undefined by an operation that returned `Err` (C17 oracle) -/
+def unknownTok : Nat := 0xFFFFFFFFFFFFFFFF
+
 /-- name of a token in the run-length text -/
 def tokName (t : Nat) : String :=
-  if t = 0 then "z" else if t = poison then "p" else "t" ++ toHex t
+  if t = 0 then "z" else if t = poison then "p" else if t = unknownTok then "?" else "t" ++ toHex t
 
 /-- identical to `rle_tokens` of the harness -/
 partial def rleTokens (toks : Array Nat) : String := Id.run do
@@ -139,11 +142,14 @@ structure SeqState where
   flat : Flat
   params : Params
   dead : Bool := false       -- after a panic the case stops
+  /-- fault runs: clusters touched by a write that returned Err (it may or may
+      not have allocated them) -/
+  maybeOwn : List Nat := []
 
 def tokList (base n : Nat) : List Nat := (List.range n).map (fun i => base + i)
 
 /-- execute one op line; returns new state and output lines -/
-def stepOp (st : SeqState) (k : Nat) (t : List String) : SeqState × List String :=
+def stepOp (st : SeqState) (k : Nat) (t : List String) (implRes : Option String := none) : SeqState × List String :=
   let d := st.dev
   let f := st.flat
   let bs := d.info.bs
@@ -154,8 +160,19 @@ def stepOp (st : SeqState) (k : Nat) (t : List String) : SeqState × List String
     let (d', r) := writeAt off len toks d
     -- oracle: C13 validity rules, then the flat disk
     let valid := len % bs = 0 ∧ off % bs = 0 ∧ off + len ≤ f.vsize ∧ ¬ d.info.readOnly
-    let f' := if valid then f.write off toks else f
-    let st' := { st with dev := d', flat := f', dead := r.isPanic }
+    -- fault runs: a write that returned Err leaves its range undefined
+    let f' := match implRes with
+      | some "ok" => if valid then f.write off toks else f
+      | some _ =>
+        -- content undefined; whether the clusters got their own allocation is undefined too
+        if valid then { f.write off (List.replicate (len / 512) unknownTok) with own := f.own } else f
+      | none => if valid then f.write off toks else f
+    let maybe' := match implRes with
+      | some "ok" => st.maybeOwn
+      | some _ => if valid ∧ len > 0 then
+          st.maybeOwn ++ (List.range ((off + len - 1) / f.cs - off / f.cs + 1)).map (· + off / f.cs) else st.maybeOwn
+      | none => st.maybeOwn
+    let st' := { st with dev := d', flat := f', dead := r.isPanic, maybeOwn := maybe' }
     (st', [s!"{k} res {outName r}", s!"{k} flatres {if valid then "ok" else "err"}"] ++
       (if r.isPanic then [] else stateLines k d'))
   | ["read", off, len] =>
@@ -177,7 +194,23 @@ def stepOp (st : SeqState) (k : Nat) (t : List String) : SeqState × List String
     let off := nat! off; let len := nat! len
     let (d', r) := discard off len d
     let valid := ¬ d.info.readOnly
-    let f' := if valid then f.discard off len else f
+    let f' := match implRes with
+      | some "ok" =>
+        if valid then
+          let after := f.discard off len
+          -- clusters a failed write may have allocated: a discard may or may not zero them
+          let probe := ({ f with own := st.maybeOwn.foldl (fun o g => o.set g true) f.own }).discard off len
+          { after with sec := (List.range (f.vsize / 512)).foldl (fun acc s =>
+              if probe.sec.get s ≠ after.sec.get s then acc.set s unknownTok else acc) after.sec }
+        else f
+      | some _ =>
+        -- a failed discard may have zeroed any whole cluster of its range
+        if valid then
+          let after := f.discard off len
+          { f with sec := (List.range (f.vsize / 512)).foldl (fun acc s =>
+              if after.sec.get s ≠ f.sec.get s then acc.set s unknownTok else acc) f.sec }
+        else f
+      | none => if valid then f.discard off len else f
     ({ st with dev := d', flat := f', dead := r.isPanic },
       [s!"{k} res {outName r}", s!"{k} flatres {if valid then "ok" else "err"}"] ++
       (if r.isPanic then [] else stateLines k d'))
@@ -191,6 +224,8 @@ def stepOp (st : SeqState) (k : Nat) (t : List String) : SeqState × List String
       [s!"{k} res {outName r}"] ++ fileLines k d' ++ [s!"{k} flatall {flatAll f 512}"] ++ stateLines k d')
   | ["fsync"] => (st, [s!"{k} res ok"] ++ stateLines k d)
   | ["reopen", bsb, l2, rb] =>
+    -- fault runs: a failed flush leaves the old device in place
+    if implRes.isSome ∧ implRes ≠ some "ok" then (st, [s!"{k} res err"]) else
     let (d1, _) := flushMeta d
     let p : Params := { bsBits := nat! bsb, rbCache := parseCache rb, l2Cache := parseCache l2,
                         readOnly := st.params.readOnly, backing := false }
@@ -290,12 +325,17 @@ partial def runSeq (dir : String) (lines : Array String) (out : IO.FS.Stream) : 
       | .ok s => st := some s; out.putStrLn "open ok"
       | .err _ => st := none; out.putStrLn "open err"
       | .panic _ => st := none; out.putStrLn "open panic"
-    | "op" :: k :: rest =>
+    | "op" :: k :: rest0 =>
       nops := nops + 1
+      -- fault runs annotate the op with the result the real code returned
+      let implRes : Option String := match rest0.getLast? with
+        | some l => if l.startsWith "res=" then some (l.drop 4).toString else none
+        | none => none
+      let rest := if implRes.isSome then rest0.dropLast else rest0
       match st with
       | some s =>
         if s.dead then pure () else
-        let (s', ls) := stepOp s (nat! k) rest
+        let (s', ls) := stepOp s (nat! k) rest implRes
         for l in ls do out.putStrLn l
         st := some s'
       | none => pure ()
